@@ -89,7 +89,15 @@ def hash(x):
 
 format = "fmt-1"
 
-class Conf:
+class RootConf:
+    def deep(self):
+        return 900
+
+class BaseConf(RootConf):
+    def inherited(self):
+        return 800 + self.deep()
+
+class Conf(BaseConf):
     LIMIT = 5
 
     def __init__(self, base):
@@ -186,7 +194,7 @@ def leaf_li():
 
 def leaf_method():
     CALLS.append("leaf_method")
-    return Conf(4).compute() + Conf.stat()
+    return Conf(4).compute() + Conf.stat() + Conf(1).inherited()
 
 def leaf_clsattr():
     CALLS.append("leaf_clsattr")
@@ -315,6 +323,8 @@ EDITS = [
     ("callee imported inside the function body", "corp/helpers.py", "return 400", "return 401", ["/c/li", "/c/rt"]),
     ("method body reached through an instance", "corp/helpers.py", "return 600", "return 601", ["/c/method", "/c/rt"]),
     ("static method body", "corp/helpers.py", "return 55", "return 56", ["/c/method", "/c/rt"]),
+    ("method inherited from a base class of the package", "corp/helpers.py", "return 800 + self.deep()", "return 801 + self.deep()", ["/c/method", "/c/rt"]),
+    ("method inherited from the base class of the base class", "corp/helpers.py", "return 900", "return 901", ["/c/method", "/c/rt"]),
     # (a class is a dependency as a whole: every user of Conf is in the cone of an edit anywhere in the class body)
     ("class attribute read without a call", "corp/helpers.py", "LIMIT = 5", "LIMIT = 6", ["/c/clsattr", "/c/method", "/c/rt"]),
     ("run-time argument on a continuation line of a multi-line keep call", "corp/pipe.py", 'out["scaled"] + 1,', 'out["scaled"] + 2,', ["/c/ml"]),
